@@ -101,6 +101,8 @@ use crate::capstone_mp::capstone_sys::{cs_ppc, cs_ppc_op, ppc_op_mem, ppc_op_typ
 use vstd::std_specs::iter::IteratorSpec;
 use crate::c02_arith::*;
 //@ include units/C02/ppc_regs.rs
+//@ include units/C02/ppc_spec.rs
+//@ include units/C02/ppc_sem.rs
 proof fn vf_canary_ppc() ensures false { /* padding: tools/verdict.py compares rustc byte offsets with Python character offsets; non-ASCII characters in shared files shift spans by a few bytes, this keeps the shifted span inside the canary ........................................................................ */ }
 } // mod semantics
 } // mod ppc
